@@ -295,9 +295,46 @@ def legacy_case(case):
     return dict(reproduced=bool(violated), violated=violated[:3])
 
 
+def falsy_root_case(case):
+    """C08 / C09: the object a handler was observed on is alive as long as it exists -- also while its truth value is false
+    (a collection-like HasTraits object that is empty).  Every step of a small history must deliver exactly the expected events."""
+    from traits.api import HasTraits, Int, List, Instance
+    violated = []
+
+    class Leaf(HasTraits):
+        value = Int
+
+    class Group(HasTraits):
+        members = List(Instance(Leaf))
+
+        def __len__(self):
+            return len(self.members)
+    for start_empty in (True, False):
+        x, y = Leaf(), Leaf()
+        g = Group() if start_empty else Group(members=[x])
+        calls = []
+        g.observe(lambda e: calls.append(e), "members.items.value")
+        steps = []
+        if start_empty:
+            steps.append(("append x to the empty group", lambda: g.members.append(x), [x]))
+        steps += [("pop the last member", lambda: g.members.pop(), []), ("reassign to [y]", lambda: setattr(g, "members", [y]), [y]),
+                  ("clear", lambda: g.members.clear(), []), ("extend [x, y]", lambda: g.members.extend([x, y]), [x, y])]
+        for label, act, reachable in steps:
+            act()
+            for leaf, nm in ((x, "x"), (y, "y")):
+                del calls[:]
+                leaf.value += 1
+                want = 1 if any(leaf is r for r in reachable) else 0
+                got = len([c for c in calls if getattr(c, "name", None) == "value"])
+                if got != want:
+                    violated.append("%s group, after %s: %s.value changed, handler called %d time(s), expected %d" % (
+                        "initially empty" if start_empty else "non-empty", label, nm, got, want))
+    return dict(reproduced=bool(violated), violated=violated[:6])
+
+
 def main():
     case = json.loads(sys.stdin.read())
-    out = {"atomic": atomic_case, "reachability": reachability_case, "legacy": legacy_case}[case["family"]](case)
+    out = {"atomic": atomic_case, "reachability": reachability_case, "legacy": legacy_case, "falsy_root": falsy_root_case}[case["family"]](case)
     print(json.dumps(out, default=repr))
 
 
